@@ -431,7 +431,12 @@ def r088_best_h(ctx):
            "the five best-response tables are not updated in lock-step under one new index (or the improvement test differs)",
            construct="best-response records")
     ret = r.ret
-    ok = ret is not None and ret.op == "tuple" and len(ret.args[0]) == 2 and ret.args[0][0].op == "sub" and ret.args[0][0].args[1] is ret.args[0][1]
+    def _pair_ok(h_, i_):
+        # (hs[i], i); with an early return the two components are conditionals over the same test
+        if h_.op == "ite" and i_.op == "ite" and h_.args[0] is i_.args[0]:
+            return _pair_ok(h_.args[1], i_.args[1]) and _pair_ok(h_.args[2], i_.args[2])
+        return h_.op == "sub" and h_.args[1] is i_
+    ok = ret is not None and ret.op == "tuple" and len(ret.args[0]) == 2 and _pair_ok(ret.args[0][0], ret.args[0][1])
     ctx.ob("R08.8", fq, None, ok, "best_h returns (hs[best_idx], best_idx)", construct="best_h return")
 
 
@@ -543,8 +548,9 @@ def r0810_linprog(ctx):
     ctx.ob("R08.10", fq, dual.node, okd, "dual right-hand side = primal objective", construct="dual rhs")
     wantb = A.spec("[(None, None) if i == n else (0, None) for i in range(n + 1)]", bd)
     wantb2 = A.spec("[(0, None)] * n + [(None, None)]", bd)
+    wantb3 = A.spec("[(0, None) for _i in range(n)] + [(None, None)]", bd)
     gb = kw(dual, "bounds")
-    okd = gb is not None and (gb is wantb or A.eq(gb, wantb) or A.eq(gb, wantb2))
+    okd = gb is not None and (gb is wantb or A.eq(gb, wantb) or A.eq(gb, wantb2) or A.eq(gb, wantb3))
     ctx.ob("R08.10", fq, dual.node, okd, "the n multipliers are non-negative and the multiplier of the simplex row is free" if okd else
            f"dual bounds are {show(gb, maxdepth=4)[:120] if gb is not None else 'missing'}", construct="dual bounds")
     bl = dict(np_, R=dual.data["result"], S=rl.self_term)
